@@ -410,8 +410,32 @@ def log(p):
     return P(App("log", (p,)))
 
 
+def is_positive(p):
+    """Sufficient syntactic test for p > 0 everywhere: positive constants and exponentials only."""
+    p = P(p)
+    if not p.terms:
+        return False
+    for mono, c in p.terms.items():
+        if c <= 0:
+            return False
+        for a, pw in mono:
+            if not isinstance(a, Exp):
+                if isinstance(a, App) and a.op in ("unsq", "sq", "expand") and is_positive(a.args[0]):
+                    continue
+                return False
+    return True
+
+
 def sqrt(p):
-    return powq(P(p), Fraction(1, 2))
+    p = P(p)
+    # perfect square 1 + 2m + m^2 = (1+m)^2 with m a positive exponential monomial
+    if len(p.terms) == 3 and p.terms.get(()) == 1:
+        for mono, c in p.terms.items():
+            if mono and c == 2 and all(isinstance(a, Exp) for a, _ in mono):
+                cand = ONE + Poly({mono: _F1})
+                if cand * cand == p:
+                    return cand
+    return powq(p, Fraction(1, 2))
 
 
 def _neg_canonical(p):
@@ -456,7 +480,8 @@ def atan2(a, b):
     a, b = P(a), P(b)
     q, s = _neg_canonical(a)
     if q.is_zero():
-        # atan2(0, b) is 0 for b>0 only; keep symbolic
+        if is_positive(b):
+            return ZERO  # atan2(0, b) = 0 for b > 0
         return P(App("atan2", (q, b)))
     return s * P(App("atan2", (q, b)))
 
